@@ -292,7 +292,7 @@ fn patch_blend_case(pm: u8) {
 }
 
 // @prop C05
-// @tier quick
+// @tier experimental
 // @unit jxl_render::blend::patch (rectangle arithmetic between patch target, canvas region and reference region) + blend_single Replace
 // @sym patch target position x in -2..=4, y in -2..=2 (partly or wholly outside the 4x2 canvas), reference origin x0 0..=2, y0 0..=1, patch size 1..=2 x 1..=2 inside the 4x2 reference frame; one probed canvas pixel
 // @bound 4x2 canvas and reference, one colour channel, one target, Replace mode (the rectangle arithmetic does not depend on the mode)
